@@ -43,6 +43,9 @@ unsigned char heap_fill = 0xA5;
 int prefill = 0x5A;              /* pattern output objects are filled with before a call */
 size_t env_tail = 0;             /* junk bytes placed right after every input buffer (non-ASan builds) */
 unsigned char env_tail_byte = 0x41;
+int env_misalign = -1;            /* input placement: -1 = derived from the input (0..7), else fixed offset */
+#define MAXHB 64
+static struct { void *p, *base; } hb[MAXHB];
 int ledger_errors = 0;
 
 void *__real_malloc(size_t);
@@ -142,11 +145,23 @@ static int hexv(int c) {
 /* parse a hex token ("-" = empty) into an exactly-sized heap block (ASan redzones on both sides) */
 unsigned char *hexbuf(const char *tok, size_t *len) {
     size_t n = (tok == NULL || strcmp(tok, "-") == 0) ? 0 : strlen(tok) / 2;
-    unsigned char *b = __real_malloc(n + env_tail);
+    /* the input starts `mis` bytes into its block, so that it sits at every alignment over a run; the
+       block still ends exactly at the input's last byte (red zone right behind it under ASan) */
+    size_t mis = env_misalign >= 0 ? (size_t) env_misalign : (n ? (size_t) ((n * 5 + (size_t) hexv(tok[1])) % 8) : 0);
+    unsigned char *base = __real_malloc(mis + n + env_tail);
+    unsigned char *b = base + mis;
     for (size_t i = 0; i < n; i++) b[i] = (unsigned char) (hexv(tok[2 * i]) * 16 + hexv(tok[2 * i + 1]));
     for (size_t i = 0; i < env_tail; i++) b[n + i] = (unsigned char) (env_tail_byte + i);
+    for (int i = 0; i < MAXHB; i++) if (hb[i].p == NULL) { hb[i].p = b; hb[i].base = base; break; }
     *len = n;
     return b;
+}
+
+/* release a block obtained from hexbuf (or any other harness block) */
+void hfree(void *p) {
+    if (p == NULL) return;
+    for (int i = 0; i < MAXHB; i++) if (hb[i].p == p) { hb[i].p = NULL; __real_free(hb[i].base); return; }
+    __real_free(p);
 }
 
 void out_hex(const unsigned char *p, size_t n) {
@@ -189,6 +204,7 @@ int main(void) {
             /* env <heap fill> <output prefill> <tail bytes> <tail byte>: the environment of the following cases */
             heap_fill = (unsigned char) tok_ll(toks[1]); prefill = (int) tok_ll(toks[2]);
             env_tail = (size_t) tok_ll(toks[3]); env_tail_byte = (unsigned char) tok_ll(toks[4]);
+            if (toks[5]) env_misalign = (int) tok_ll(toks[5]);
             printf("env set"); found = 1;
         }
         if (!found) printf("unknown-op %s", toks[0]);
